@@ -24,7 +24,6 @@ CONSTANTS Ns,          \* data-set sizes
 VARIABLES ds, pend, res, out, pc
 vars == <<ds, pend, res, out, pc>>
 
-Val(seed, i) == ((seed * 7919 + i * 104729 + i * i * 31) % 7) - 3
 \* predictions with a unique maximum per sample (for the arg-max rule)
 Uniq(seed, i, j) == (i * 3 + j * 5 + seed) % 7
 
